@@ -30,6 +30,7 @@ type filePeer struct {
 	emptyData  bool   // answer READ with empty DATA (never at EOF)
 	failClose  uint32 // non-zero: CLOSE is answered with this status code
 	arrivals   []byte // the order in which requests carrying the handle ('r') and CLOSE requests ('c') arrived
+	statSize   int    // what STAT / FSTAT report as the size; 0 = the true size, k+1 = k (a server may report 0 for a file that has content)
 }
 
 func (p *filePeer) attrsBody() []byte {
@@ -37,7 +38,11 @@ func (p *filePeer) attrsBody() []byte {
 	if !p.regular {
 		mode = 0o020644
 	}
-	return (&rb{}).u32(0xd).u64(uint64(len(p.store))).u32(mode).u32(1700000000).u32(1700000000).b
+	size := uint64(len(p.store))
+	if p.statSize > 0 {
+		size = uint64(p.statSize - 1)
+	}
+	return (&rb{}).u32(0xd).u64(size).u32(mode).u32(1700000000).u32(1700000000).b
 }
 
 func (p *filePeer) handle(fr *rawResp) []byte {
